@@ -5,4 +5,4 @@ cd /verif/vx && CARGO_NET_OFFLINE=true cargo build --release --offline
 cd /verif/replay
 export CARGO_NET_OFFLINE=true CARGO_TARGET_DIR=/verif/target RUSTFLAGS="--cfg sierra_db_sierradb_verif"
 # prebuild the replay binaries so that a violation is replayed without a cold build (best effort)
-cargo build --offline -p replay-core -p replay-topology -p replay-cluster || true
+cargo build --offline -p replay-core -p replay-topology -p replay-cluster -p replay-server || true
